@@ -430,3 +430,12 @@ func isPrefix(got, want []hx.Row) (bool, int) {
 	}
 	return true, -1
 }
+
+// sameRows: identical row sequences (strict value equality).
+func sameRows(a, b []hx.Row) bool {
+	if len(a) != len(b) {
+		return false
+	}
+	ok, _ := isPrefix(a, b)
+	return ok
+}
